@@ -104,6 +104,9 @@ type Plan struct {
 	// is cut by the reader's buffer boundary at every position (1 direct objects, 2 members of
 	// object streams, 3 stream dictionaries / the stream keyword)
 	BoundaryKind, BoundaryFrom, BoundaryTo int
+	// NoModel: the program is judged by the direct oracle alone (real Writer, real Reader, value by
+	// value); the model, which does not depend on positions, sees a sample of these programs only
+	NoModel bool
 }
 
 // BatchSizes are the sizes of WriteCompressed batches that get explored beyond the small ones:
